@@ -1,6 +1,6 @@
 //! C02: multiplication.
 use refmodel::spec;
-use refmodel::ZNum;
+use refmodel::{Obs, ZNum};
 use vengine::{op, oph, Aux, Op};
 use vengine::{ov, pr, v, vf};
 
@@ -16,7 +16,7 @@ macro_rules! tables {
                     op!("wrapping_mul", 2, Aux::None, spec::wrapping_mul, |r, _x| v(r[0].wrapping_mul(r[1]))),
                     op!("saturating_mul", 2, Aux::None, spec::saturating_mul, |r, _x| v(r[0].saturating_mul(r[1]))),
                     oph!("strict_mul", 2, Aux::None, spec::strict_mul, |r, _x| v(r[0].strict_mul(r[1]))),
-                    op!("unchecked_mul", 2, Aux::None, spec::unchecked_mul, |r, _x| v(unsafe { r[0].unchecked_mul(r[1]) })),
+                    op!("unchecked_mul", 2, Aux::None, spec::unchecked_mul, |r, _x| if r[0].checked_mul(r[1]).is_some() { v(unsafe { r[0].unchecked_mul(r[1]) }) } else { Obs::OV(None) }),
                     op!("widening_mul", 2, Aux::None, spec::widening_mul, |r, _x| pr(r[0].widening_mul(r[1]))),
                     op!("carrying_mul", 3, Aux::None, spec::carrying_mul, |r, _x| pr(r[0].carrying_mul(r[1], r[2]))),
                 ]
@@ -28,7 +28,7 @@ macro_rules! tables {
                     op!("wrapping_mul", 2, Aux::None, spec::wrapping_mul, |r, _x| v(r[0].wrapping_mul(r[1]))),
                     op!("saturating_mul", 2, Aux::None, spec::saturating_mul, |r, _x| v(r[0].saturating_mul(r[1]))),
                     oph!("strict_mul", 2, Aux::None, spec::strict_mul, |r, _x| v(r[0].strict_mul(r[1]))),
-                    op!("unchecked_mul", 2, Aux::None, spec::unchecked_mul, |r, _x| v(unsafe { r[0].unchecked_mul(r[1]) })),
+                    op!("unchecked_mul", 2, Aux::None, spec::unchecked_mul, |r, _x| if r[0].checked_mul(r[1]).is_some() { v(unsafe { r[0].unchecked_mul(r[1]) }) } else { Obs::OV(None) }),
                 ]
             }
         }
